@@ -65,6 +65,21 @@ func runTrgMem(kind string, ops []string) string {
 			default:
 				out = append(out, "err")
 			}
+		case "b":
+			// a foreign ID that is not valid UTF-8: the outbox entry cannot be encoded, so the Store — and with it Trigger — must
+			// fail as a whole: an error, and no run left behind to block the next Trigger of that foreign ID
+			fid := string([]byte{0xff, 0xfe, byte(atoi(f[1]))})
+			_, err := w.Trigger(ctx, fid)
+			res := "ok"
+			if err != nil {
+				res = "err"
+			}
+			if _, lerr := store.Latest(ctx, "wf", fid); errors.Is(lerr, workflow.ErrRecordNotFound) {
+				res += ":none"
+			} else {
+				res += ":wrote"
+			}
+			out = append(out, res)
 		case "n":
 			_, err := w3.Trigger(ctx, "f"+f[1])
 			res := "ok"
@@ -105,6 +120,8 @@ func genTrgMem(p *params, emit func(string, bool)) {
 	emit("trgmem t.1 u.1 t.1 u.1 w.1.5 u.1 t.1 w.2.4 u.1 t.1", true)
 	// Trigger on a workflow that is not running: an error, nothing written
 	emit("trgmem n.1 t.1 n.1 n.2 w.1.5 n.1", true)
+	// a Trigger whose announcement cannot be encoded: an error, nothing written, twice in a row the same answer
+	emit("trgmem b.1 b.1 t.1 b.2 w.1.5 b.1", true)
 	for i := 0; i < p.pick(300, 6000); i++ {
 		var ops []string
 		nt := 0
